@@ -132,7 +132,7 @@ def _single_faults(tbl):
     return faults
 
 
-def _case(name, tbl, ctxs, fe):
+def _case(name, tbl, ctxs, fe, rerun=False):
     return {
         "format": 1,
         "property": PROP,
@@ -143,7 +143,7 @@ def _case(name, tbl, ctxs, fe):
         "frontends": [fe],
         "schedule": [0],
         "abandon": [],
-        "reruns": [fe],   # every case is run twice on the same stream and Config objects
+        "reruns": [fe] if rerun else [],   # run twice on the same stream and Config objects
         "share_config": False,
     }
 
@@ -201,7 +201,9 @@ def enumerate_cases():
                         ctxs = copy.deepcopy(contexts)
                         ctxs[ci]["entries"].insert(pos, e)
                         for fe in STREAM_FES:
-                            cases.append(_case(f"{bname}/{f['role']}/{e['module']}.{e['test']}/ctx{ci}/{sid}/pos{pos}/{fe}", tbl, ctxs, fe))
+                            # faults that go through the test function (F3 rejected parameters, F6 raises) are also
+                            # re-run on the same objects: what the failure leaves behind must not matter either
+                            cases.append(_case(f"{bname}/{f['role']}/{e['module']}.{e['test']}/ctx{ci}/{sid}/pos{pos}/{fe}", tbl, ctxs, fe, rerun=f["role"] == "F3" or (f["role"] == "F6" and f["params"]["exc"] in ("ValueError", "SimFault"))))
     return cases
 
 
@@ -518,7 +520,7 @@ def count_cases():
 
 
 BUDGET = {
-    "quick": {"runs": 1600, "seconds": 45, "selfcheck": 2, "crosscheck": 8},
+    "quick": {"runs": 1600, "seconds": 30, "selfcheck": 2, "crosscheck": 8},
     "thorough": {"runs": 120000, "seconds": 1200, "selfcheck": 10, "crosscheck": 40},
 }
 
